@@ -35,6 +35,7 @@ def showBits (x : Float) : String := if x.isNaN then "7ff8000000000000" else hex
 
 structure St where
   tbl : Table Float := []
+  reg : List RegRow := []
 deriving Inhabited
 
 def lookup (st : St) (name : String) : Option Nat := st.tbl.findIdx? (·.name == name)
@@ -76,10 +77,12 @@ def showRes (st : St) : Except QErr (Quantity Float) → String
   | .error .nonRational => "err nonrational"
   | .error .divZero => "err divzero"
 
+/-- `<16 hex digits>` or `<16 hex digits>n` (can_simplify = false) -/
 def parseQ (st : St) (bits unit : String) : Option (Quantity Float) := do
-  let v ← parseBits bits
+  let nosimp := bits.endsWith "n"
+  let v ← parseBits (if nosimp then (bits.dropEnd 1).toString else bits)
   let u ← parseUnit st unit
-  pure ⟨v, u, true⟩
+  pure ⟨v, u, !nosimp⟩
 
 def binop (st : St) (op : String) (a b : Quantity Float) : String :=
   match op with
@@ -93,6 +96,9 @@ def binop (st : St) (op : String) (a b : Quantity Float) : String :=
     | .incompatible => "err incompatible" | .nan => "nan" | .lt => "lt" | .eq => "eq" | .gt => "gt"
   | "smaller" => showUnit st (smallerUnit st.tbl a.unit b.unit)
   | "uniteq" => s!"bool {unitEq st.tbl a.unit b.unit}"
+  | "multiple" => match isMultipleOf st.tbl a.unit b.unit with
+    | some r => s!"some {r.num}/{r.den}"
+    | none => "none"
   | _ => "bad-op"
 
 def unop (st : St) (op : String) (a : Quantity Float) : String :=
@@ -101,6 +107,12 @@ def unop (st : St) (op : String) (a : Quantity Float) : String :=
   | "neg" => showQ st a.neg
   | "baserep" => showQ st (toBase st.tbl a)
   | "canon" => showQ st ⟨a.value, canon st.tbl a.unit, true⟩
+  | "simplify" => match fullSimplify st.tbl a with
+    | some r => showQ st r
+    | none => "panic"
+  | "simplify_reg" => match fullSimplifyReg st.tbl st.reg a with
+    | some r => showQ st r
+    | none => "panic"
   | _ => "bad-op"
 
 /-! S-expressions for `eval`: `(add A B)`, `(sub A B)`, `(mul A B)`, `(div A B)`, `(neg A)`,
@@ -163,10 +175,14 @@ def step (st : St) (line : String) : St × String :=
     match parseE st (toks.length + 1) toks with
     | some (e, []) => (st, showRes st (evalQ st.tbl e))
     | _ => (st, "bad-request")
-  | ["tbl-reset"] => ({ st with tbl := [] }, "ok")
+  | ["tbl-reset"] => ({ st with tbl := [], reg := [] }, "ok")
+  | ["abbr", name] =>
+    match lookup st name with
+    | some id => ({ st with reg := st.reg.set id ⟨true⟩ }, "ok")
+    | none => (st, "bad-unit")
   | ["u", name, isBase, bits, unit] =>
     match parseBits bits, parseUnit st unit with
-    | some f, some u => ({ st with tbl := st.tbl ++ [⟨name, isBase == "1", f, u⟩] }, "ok")
+    | some f, some u => ({ st with tbl := st.tbl ++ [⟨name, isBase == "1", f, u⟩], reg := st.reg ++ [⟨false⟩] }, "ok")
     | _, _ => (st, "bad-unit")
   | [op, b1, u1] =>
     match parseQ st b1 u1 with
